@@ -181,7 +181,7 @@ StepCreate ==
               \cup (IF contract THEN {} ELSE {V("C12", "create_contract", [status |-> resp.status])})
               \cup (IF ok /\ ~(\E i \in 1..Len(Ev.args.times) : OpTimeOK(newr.optime, Ev.args.times[i], Ev.args.tz))
                       THEN {V("C02", "opening_time", [tz |-> Ev.args.tz])} ELSE {})
-        /\ div' = div \cup DivOf(exp, obs, resp)
+        /\ div' = div \cup (IF pre.lrsn < 0 THEN {} ELSE DivOf(exp, obs, resp))     \* (counter beyond TLC's integers: no prediction)
   /\ UNCHANGED meta
 
 \* a create with malformed content: refused with a 4xx, and the CHF's state (subscriber pool, registered notification
@@ -283,6 +283,15 @@ StepRecharge ==
         /\ div' = div \cup DivOf([st |-> exp.st, resp |-> exp.resp], obs, resp)
   /\ UNCHANGED meta
 
+\* the environment advances the record counter to just below 2^32 (all the records the CHF opened meanwhile): beyond TLC's
+\* integers -- the projection shows a sentinel and the refinement layer rests until the next reset; the clauses go on
+StepJump ==
+  /\ Ev.action = "jump"
+  /\ pre' = ObsSt(Ev.state) /\ h' = h
+  /\ viol' = viol \cup StateClauses(ObsSt(Ev.state), h)
+  /\ div' = div
+  /\ UNCHANGED meta
+
 StepTopUp ==
   /\ Ev.action = "topup"
   /\ LET obs == ObsSt(Ev.state)
@@ -305,7 +314,7 @@ TInit == /\ l = 1 /\ viol = {} /\ div = {}
          /\ meta = [wb |-> FALSE, supis |-> EmptyFn, subs |-> EmptyFn, url |-> "", sink |-> ""]
 
 TNext == \/ (l <= Len(Trace) /\ l' = l + 1 /\
-               (Reset \/ StepCreate \/ StepBadCreate \/ StepUpdate \/ StepRelease \/ StepRecharge \/ StepTopUp))
+               (Reset \/ StepCreate \/ StepBadCreate \/ StepUpdate \/ StepRelease \/ StepRecharge \/ StepTopUp \/ StepJump))
          \/ Finish
 TSpec == TInit /\ [][TNext]_tvars
 =============================================================================
